@@ -155,32 +155,41 @@ def World.metaAuthenticate (w : World) (name pass : String) : Option User :=
   | some u => if u.password = pass then some u else none
   | none => none
 
+/-- the `case UserAuthentication:` arm. -/
+def authUser (w : World) (user pass : String) : AuthOutcome :=
+  if user = "" then .deny 401
+  else match w.metaAuthenticate user pass with
+    | some u => .inner (some u)
+    | none => .deny 401
+
+/-- the `case BearerAuthentication:` arm. -/
+def authBearer (w : World) (t : Jwt) : AuthOutcome :=
+  if !w.sharedSecret then .deny 401
+  else if !t.parses then .deny 401
+  else if !t.expOk then .deny 401
+  else match t.user with
+    | .missing => .deny 401
+    | .notString => .deny 401
+    | .name n =>
+      if n = "" then .deny 401
+      else match w.findUser n with
+        | some u => .inner (some u)
+        | none => .deny 401
+
+/-- the switch on `creds.Method`. -/
+def authSwitch (w : World) (c : Creds) : AuthOutcome :=
+  match c.method with
+  | 0 => authUser w c.user c.pass
+  | 1 => authBearer w c.tok
+  | _ => .denyThenInner 401     -- `default:` reports "unsupported authentication", no return
+
 /-- `authenticate(inner, h, requireAuthentication)`. -/
 def authenticate (w : World) (r : Req) : AuthOutcome :=
   if !w.authEnabled then .inner none
   else if !w.adminExists then .inner none
   else match parseCredentials r with
     | none => .deny 401
-    | some c =>
-      match c.method with
-      | 0 =>
-        if c.user = "" then .deny 401
-        else match w.metaAuthenticate c.user c.pass with
-          | some u => .inner (some u)
-          | none => .deny 401
-      | 1 =>
-        if !w.sharedSecret then .deny 401
-        else if !c.tok.parses then .deny 401
-        else if !c.tok.expOk then .deny 401
-        else match c.tok.user with
-          | .missing => .deny 401
-          | .notString => .deny 401
-          | .name n =>
-            if n = "" then .deny 401
-            else match w.findUser n with
-              | some u => .inner (some u)
-              | none => .deny 401
-      | _ => .denyThenInner 401     -- `default:` reports "unsupported authentication", no return
+    | some c => authSwitch w c
 
 /-! ## statement privileges and the authorizers -/
 
@@ -337,11 +346,15 @@ def azHandlers : List String := ["serveQueryLog", "serveContextQueryLog", "serve
 
 def routeGates (r : RouteFact) : List String := if nonEnforcing.contains r.handler then [] else r.authz
 
+def isAdmin : Option User → Bool
+  | some u => u.admin
+  | none => false
+
 /-- the handler's own gate, given the user `authenticate` handed over. -/
 def gate (w : World) (r : RouteFact) (u : Option User) (db : String) (dbExists : Bool) (q : List Stmt) : Decision :=
   let deny := if azHandlers.contains r.handler then Decision.dAz else Decision.d403
   if !w.authEnabled then .pass
-  else if (routeGates r).contains "admin" && !(match u with | some u => u.admin | none => false) then .d403
+  else if (routeGates r).contains "admin" && !isAdmin u then .d403
   else if (routeGates r).contains "write" && !w.authorizeWrite u db then .d403
   else if (routeGates r).contains "write@db" && dbExists && !w.authorizeWrite u db then .d403
        -- "write@db": the handler first looks the database up and answers its own 404 when absent
